@@ -295,7 +295,7 @@ theorem real_eq_spec (v : Variant) {m : Module ν} (hwf : WF m) (hsub : RealSubs
       intro x _ t ht
       rw [hsucc x] at ht
       exact callees_sub_names hwf x t ht
-    simp [Module.panicsWith, this]
+    rw [Module.panicsWith, this, Bool.and_false]
   simp only [Module.realStrip, hpan, Bool.false_eq_true, if_false, Option.some.injEq]
   simp only [Module.strip, Module.stripWith]
   congr 1
@@ -305,7 +305,7 @@ theorem real_eq_spec (v : Variant) {m : Module ν} (hwf : WF m) (hsub : RealSubs
 /-- the repaired pass (proposed_fixes/C06-roots-and-table-set.diff) is the specified pass on every
 well-formed module -/
 theorem real_fixed_eq_spec {m : Module ν} (hwf : WF m) : m.realStrip fixedVariant = some m.strip :=
-  real_eq_spec fixedVariant hwf ⟨by decide, by decide, by decide⟩
+  real_eq_spec fixedVariant hwf ⟨fun h => absurd h (by decide), fun h => absurd h (by decide), fun h => absurd h (by decide)⟩
 
 example : RealSubset pinnedVariant exChain :=
   ⟨fun _ => by decide, fun _ => by decide, fun _ => by decide⟩
